@@ -45,7 +45,9 @@ def assert_imports():
 # --------------------------------------------------------------------------- TLC
 
 def _java(args, env=None, cwd=None, timeout=None, xmx="3g", extra_props=()):
-    cmd = ["java", "-XX:+UseParallelGC", "-Xmx" + xmx] + list(extra_props) + ["-cp", JAR, "tlc2.TLC"] + args
+    # TLC leaves an empty tlc-<n> directory under java.io.tmpdir per run: keep it inside the caller's scratch directory, which is removed
+    tmpprop = ["-Djava.io.tmpdir=" + cwd] if cwd and os.path.isdir(cwd) else []
+    cmd = ["java", "-XX:+UseParallelGC", "-Xmx" + xmx] + tmpprop + list(extra_props) + ["-cp", JAR, "tlc2.TLC"] + args
     e = dict(os.environ)
     e.pop("JAVA_TOOL_OPTIONS", None)
     if env:
